@@ -766,6 +766,17 @@ snarf_dt(const char *eof, const char *vp, const char *const ep)
 		/* set eof for next round */
 		eof = neo;
 	}
+	/* a day the month (of that scale) hasn't got is no date, the
+	 * fillers count on from what they're given */
+	with (echs_scale_t s = echs_instant_scale(res)) {
+		const echs_instant_t x = echs_instant_detach_scale(
+			echs_instant_detach_tzob(res));
+		const unsigned int n = echs_scale_ndim(s, x.y, x.m);
+
+		if (UNLIKELY(n && x.d > n)) {
+			return echs_nul_instant();
+		}
+	}
 	return res;
 }
 
